@@ -1,14 +1,15 @@
 (* C16 - Machines are isolated from other instances, classes and definitions.  Statements only.
    Every theorem of C01-C14 and C17 is about ONE machine: its model takes the machine's own
    declaration, providers, behaviour and configuration and nothing else, so in the model no other
-   instance or class can influence it.  The two places where the library shares state between
+   instance or class can influence it; Impl/Process.v makes that explicit for a process of several
+   objects driven in any interleaving (theorems below).  The two places where the library shares state between
    machines are (1) the process-wide signature cache, modelled in Impl/World.v and treated here, and
    (2) State objects shared between a class and its subclasses (deviation D13, a known finding
    exhibited by the correspondence probe).  That nothing else is shared is what the metamorphic
    correspondence (A alone = A interleaved with unrelated activity) checks. *)
 From Coq Require Import List Arith Bool.
 Import ListNotations.
-From PySM Require Import Impl.World Proofs.WorldProofs.
+From PySM Require Import Impl.World Impl.Process Proofs.WorldProofs Proofs.ProcessProofs.
 
 (* a consistent cache is transparent: when the key computed from a callable separates callables
    with different signatures / asyncness, every callable is bound with its own adapter whatever
@@ -25,6 +26,26 @@ Print Assumptions C16_signature_cache_transparent.
 Theorem C16_cache_collision_refuted : bind_after [f_sync] f_async <> own f_async.
 Proof. exact cache_collision_refuted. Qed.
 Print Assumptions C16_cache_collision_refuted.
+
+(* a process of several machine objects (instances of the same or of different classes), driven in ANY
+   interleaving: what object i returns, raises, stores and logs, and the object it ends as, are what it
+   returns, raises, stores, logs and ends as when it alone is given its own operations - for every
+   process, every interleaved history, every object *)
+Theorem C16_object_in_a_process_behaves_as_alone :
+  forall fuel h p i m, nth_error p i = Some m ->
+    nth_error (fst (prun fuel p h)) i = Some (fst (mrun fuel m (own_ops i h)))
+    /\ own_obs i (snd (prun fuel p h)) = snd (mrun fuel m (own_ops i h)).
+Proof. exact process_projection. Qed.
+Print Assumptions C16_object_in_a_process_behaves_as_alone.
+
+(* hence the other objects, what they are asked to do, and the interleaving do not matter *)
+Theorem C16_other_objects_do_not_matter :
+  forall fuel h1 h2 p1 p2 i m,
+    nth_error p1 i = Some m -> nth_error p2 i = Some m -> own_ops i h1 = own_ops i h2 ->
+    own_obs i (snd (prun fuel p1 h1)) = own_obs i (snd (prun fuel p2 h2))
+    /\ nth_error (fst (prun fuel p1 h1)) i = nth_error (fst (prun fuel p2 h2)) i.
+Proof. exact process_isolation. Qed.
+Print Assumptions C16_other_objects_do_not_matter.
 
 Example C16_nonvacuous :
   key_separates [f_sync] /\ bind_after [f_sync; f_sync] f_sync = own f_sync.
